@@ -440,6 +440,52 @@ def clause_d(c: Check):
             ok_h = len(rets) == 1 and isinstance(rets[0].value, ast.Constant) and rets[0].value.value == ''
     c.expect(ok_h, 'C11-d', '_expand_vars/unknown-name-is-empty',
              'a reference to a name that is not in the set does not expand to the empty string', sub.loc())
+    # which names a `${NAME}` reference may have: every name `env` can set - a non-empty run of letters, digits and
+    # `_`, ALSO one that begins with a digit (the expression is read as a regular-expression syntax tree, not as text)
+    from ..fold import Folder
+    pat = c.fo.fold_path(ENV + ':_ENV_VAR_REFERENCE')
+    pattern_text = None
+    mod = ix.module(ENV)
+    for n in mod.tree.body:
+        if isinstance(n, ast.Assign) and len(n.targets) == 1 and isinstance(n.targets[0], ast.Name) \
+                and n.targets[0].id == '_ENV_VAR_REFERENCE' and isinstance(n.value, ast.Call) and n.value.args:
+            v = c.fo.fold(mod, None, n.value.args[0])
+            if isinstance(v, str):
+                pattern_text = v
+    c.require(pattern_text is not None, 'C11-d: the pattern of _ENV_VAR_REFERENCE does not fold to a string')
+    import warnings
+    with warnings.catch_warnings():
+        warnings.simplefilter('ignore')
+        try:
+            import re._parser as _rp
+        except ImportError:
+            import sre_parse as _rp
+        tree = list(_rp.parse(pattern_text))
+
+    def chars_of(items):
+        out = set()
+        for op, av in items:
+            nm = str(op)
+            if nm == 'LITERAL':
+                out.add(chr(av))
+            elif nm == 'RANGE':
+                out |= {chr(x) for x in range(av[0], av[1] + 1)}
+            else:
+                return None
+        return out
+
+    want = set('abcdefghijklmnopqrstuvwxyzABCDEFGHIJKLMNOPQRSTUVWXYZ0123456789_')
+    ok_re = False
+    if len(tree) == 4 and [str(t_[0]) for t_ in tree] == ['LITERAL', 'LITERAL', 'MAX_REPEAT', 'LITERAL'] \
+            and chr(tree[0][1]) == '$' and chr(tree[1][1]) == '{' and chr(tree[3][1]) == '}':
+        lo, hi, sub_ = tree[2][1]
+        sub_ = list(sub_)
+        if lo == 1 and len(sub_) == 1 and str(sub_[0][0]) == 'IN':
+            ok_re = chars_of(sub_[0][1]) == want
+    c.expect(ok_re, 'C11-d', '_ENV_VAR_REFERENCE/names-are-runs-of-letters-digits-underscore',
+             'a reference is recognised by %r, which is not "${" + one or more of [A-Za-z0-9_] + "}": a variable that '
+             '`env` can set (e.g. one whose name begins with a digit) is not expanded when referenced' % pattern_text,
+             ev.loc())
     # nothing else is consulted: no other mapping is read in _expand_vars
     others = []
     for n in ast.walk(ev.node):
